@@ -411,6 +411,9 @@ func TestEchConfigCases(t *testing.T) {
 		var want [][]byte
 		for i := 0; i < 40; i++ {
 			sp := ech.ConfigSpec{Version: 0xfe0d, ID: uint8(i), KEM: 0x20, PublicKey: bytes.Repeat([]byte{byte(i + 1)}, 32), CipherSuites: []ech.CipherSuite{{KDF: 1, AEAD: uint16(1 + i%3)}}, PublicName: bytes.Repeat([]byte{byte('a' + i%26)}, 1+i*6)}
+			if i%2 == 1 { // large configs too (a post-quantum KEM key): encoding them takes long enough for calls to overlap
+				sp.PublicKey = bytes.Repeat([]byte{byte(i + 1)}, 20000+i)
+			}
 			b, err := sp.Bytes()
 			if err != nil {
 				continue
@@ -424,7 +427,7 @@ func TestEchConfigCases(t *testing.T) {
 			go func(g int) {
 				defer wg.Done()
 				defer func() { recover() }()
-				for round := 0; round < 200; round++ {
+				for round := 0; round < 600; round++ {
 					i := (g*7 + round) % len(specs)
 					b, err := specs[i].Bytes()
 					if err != nil || !bytes.Equal(b, want[i]) {
@@ -442,10 +445,10 @@ func TestEchConfigCases(t *testing.T) {
 			}(g)
 		}
 		wg.Wait()
-		nStruct += 1600
+		nStruct += 4800
 		if n := cbad.Load(); n > 0 {
 			bad++
-			w.Write(Ev{"kind": "concurrent", "node": int(n), "diff": fmt.Sprintf("%d of 1600 ConfigSpec.Bytes / NewConfig calls made from eight goroutines at once gave a different (or unparseable) result than the same calls made one after the other", n)})
+			w.Write(Ev{"kind": "concurrent", "node": int(n), "diff": fmt.Sprintf("%d of 4800 ConfigSpec.Bytes / NewConfig calls made from eight goroutines at once gave a different (or unparseable) result than the same calls made one after the other", n)})
 		}
 	}
 	// the list length is a 16-bit field: a list that does not fit must be refused, not wrapped
